@@ -7,10 +7,14 @@ package comp
 
 import (
 	"fmt"
+	"sort"
 	"strconv"
 	"strings"
 
+	"github.com/enbility/spine-go/api"
 	"github.com/enbility/spine-go/model"
+
+	"verifharness/h"
 )
 
 // regFnID: the model's name of a function (the type number of the feature that owns it in the harness world)
@@ -119,4 +123,34 @@ func regWirePeer(client, server *model.FeatureAddressType) int {
 		}
 	}
 	return -1
+}
+
+// regEventKey: what a subscription-change event names: "+p:ce/cf->se/sf" (add) / "-…" (remove); p from the Ski
+func regEventKey(p api.EventPayload) string {
+	sign := "~"
+	switch p.ChangeType {
+	case api.ElementChangeAdd:
+		sign = "+"
+	case api.ElementChangeRemove:
+		sign = "-"
+	}
+	peer := strings.TrimPrefix(p.Ski, "ski")
+	c, sv := "?", "?"
+	if p.Feature != nil && p.Feature.Address() != nil && p.Feature.Address().Feature != nil {
+		c = fmt.Sprintf("%s/%d", h.EntStr(p.Feature.Address().Entity), *p.Feature.Address().Feature)
+	}
+	if p.LocalFeature != nil && p.LocalFeature.Address() != nil && p.LocalFeature.Address().Feature != nil {
+		sv = fmt.Sprintf("%s/%d", h.EntStr(p.LocalFeature.Address().Entity), *p.LocalFeature.Address().Feature)
+	}
+	return fmt.Sprintf("%s%s:%s->%s", sign, peer, c, sv)
+}
+
+// takeKeys: the keyed subscription-change events since the last call, sorted (handlers are goroutines)
+func (r *regEvents) takeKeys() []string {
+	r.mu.Lock()
+	defer r.mu.Unlock()
+	k := r.keys
+	r.keys = nil
+	sort.Strings(k)
+	return k
 }
